@@ -218,7 +218,7 @@ def lifecycle_models(run, tier, overrides=None):
            ["MC_Lifecycle_q1", "MC_Lifecycle_q2", "MC_Lifecycle_t", "MC_Steps_t"]
     if run.prop in ("C02", "C03"):
         # + the environment replaces a function's code between lifetimes (Regenerate)
-        cfgs.insert(2, "MC_Lifecycle_rg")
+        cfgs.insert(2, "MC_Lifecycle_rgq" if tier == "quick" else "MC_Lifecycle_rg")
     for c in cfgs:
         cfg = c
         if overrides:
@@ -285,6 +285,12 @@ def lifecycle_check(prop, tier):
         hists += h3
         run.states += g3["distinct"]
         run.transitions += g3["generated"]
+        # every pattern of up to three installations on ONE function over two fakes and both forced values (A,B,A with
+        # the very same replacement installed again); each twice: flavours kept per fake / rotating
+        h3f, g3f = gen_behaviours("MC_LifecycleApi_q3f", timeout=3000)
+        hists += [h for h in h3f for _ in (0, 1)]
+        run.states += g3f["distinct"]
+        run.transitions += g3f["generated"]
     if prop in ("C02", "C03", "C12", "C17", "C05", "C04"):
         # long lifetimes (up to 10 installations over 2 functions, mixed kinds) sampled by TLC's simulator
         rl = tlc.check("MC_LifecycleApi", "MC_LifecycleApi_long", workers=1, timeout=3000, coverage=False,
@@ -695,8 +701,10 @@ def placement_check(prop, tier):
         # three-installation generator (A, B, A patterns over two fakes and a forced boolean, one or two functions), replayed
         # on real functions; after every installation every function is called and must answer as the specification says
         h3, g3 = gen_behaviours("MC_LifecycleApi_q3", timeout=3000)
-        run.states += g3["distinct"]
-        run.transitions += g3["generated"]
+        h3f, g3f = gen_behaviours("MC_LifecycleApi_q3f", timeout=3000)
+        h3 = h3 + [h for h in h3f for _ in (0, 1)]
+        run.states += g3["distinct"] + g3f["distinct"]
+        run.transitions += g3["generated"] + g3f["generated"]
         lscen = [hist_to_scenario(h, i, "rust", 2, diff=False) for i, h in enumerate(h3, 1)]
         lg, lo, _ = vlib.run_harness("lifecycle", lscen, "lifecycle_C01")
         nre = 0
@@ -1563,6 +1571,11 @@ def sig_check(prop, tier):
                  and sum(1 for x in h if x["act"] == "InstallOk") >= 2]
         run.states += gr["distinct"]
         run.transitions += gr["generated"]
+        # ... and every pattern of up to three installations on one function over two fakes and both values
+        h3f, g3f = gen_behaviours("MC_LifecycleApi_q3f", timeout=3000)
+        hists += [h for h in h3f for _ in (0, 1) if any(x["act"] == "Install" and x["kind"] == "bool" for x in h)]
+        run.states += g3f["distinct"]
+        run.transitions += g3f["generated"]
         lscen = [hist_to_scenario(h, i, "rust", 2, diff=False) for i, h in enumerate(hists, 1)]
         lg, lo, _ = vlib.run_harness("lifecycle", lscen, "lifecycle_C10")
         cfg3 = tlc.make_cfg("Trace_Api", {"Props": '{"C10", "ALL"}'}, "Trace_Api_C10")
